@@ -211,14 +211,37 @@ def apply_included_paths(
     index.write()
 
     # 2) Reflect changes in the working tree
+    from .index import (
+        InvalidPathError,
+        get_path_element_validator,
+        validate_path,
+        verify_leading_dirs,
+    )
+
+    validator = get_path_element_validator(config)
+    root_bytes = os.fsencode(repo.path)
+
+    def stays_inside(path_bytes: bytes) -> bool:
+        """Same name and leading-symlink checks as checkout."""
+        if not validate_path(path_bytes, validator):
+            return False
+        try:
+            verify_leading_dirs(path_bytes, [], root_bytes)
+        except InvalidPathError:
+            return False
+        return True
+
     for path_bytes, entry in list(index.items()):
         if not isinstance(entry, IndexEntry):
             continue  # Skip conflicted entries
+        if not stays_inside(path_bytes):
+            # never write or delete outside the work tree or inside .git
+            continue
         full_path = os.path.join(repo.path, path_bytes.decode("utf-8"))
 
         if entry.skip_worktree:
             # Excluded => remove if safe
-            if os.path.exists(full_path):
+            if os.path.lexists(full_path):
                 if not force and local_modifications_exist(full_path, entry):
                     raise SparseCheckoutConflictError(
                         f"Local modifications in {full_path} would be overwritten "
@@ -234,8 +257,9 @@ def apply_included_paths(
                     if not force:
                         raise
         else:
-            # Included => materialize if missing
-            if not os.path.exists(full_path):
+            # Included => materialize if missing (a dangling symlink is
+            # there: writing "through" it would land wherever it points)
+            if not os.path.lexists(full_path):
                 try:
                     blob = repo.object_store[entry.sha]
                 except KeyError:
